@@ -170,6 +170,12 @@ func (e *Episode) Token(kind string) (*ua.NodeID, int) {
 		return ua.NewNumericNodeID(0, 3000000000+uint32(e.Rnd.Intn(1000))), 900000
 	case "unknownstr":
 		return ua.NewStringNodeID(1, "no-such-session"), 900001
+	case "aliasns":
+		// the numeric identifier of the valid session's token in another namespace: a different NodeID
+		return ua.NewNumericNodeID(7, e.Valid.Tok.IntID()), 900002
+	case "aliasstr":
+		// … and as a string identifier with the same digits
+		return ua.NewStringNodeID(0, fmt.Sprint(e.Valid.Tok.IntID())), 900003
 	case "closed":
 		return e.Closed.Tok, e.Closed.Idx
 	case "notactivated":
